@@ -328,6 +328,22 @@ func ruleM6(c *Ctx) {
 				}
 			}
 		}
+		// the acceptance is the other edge of the same test: every `return true` lies behind it, so no fast path
+		// accepts a span that was never measured (the verdict would depend on where the URI happens to sit)
+		acc := dep.branch.Succs[1-dep.idx]
+		na := 0
+		for _, rb := range fn.Blocks {
+			rr, ok := rb.Instrs[len(rb.Instrs)-1].(*ssa.Return)
+			if !ok || len(rr.Results) != 1 {
+				continue
+			}
+			if kk, isK := rr.Results[0].(*ssa.Const); isK && kk.Value.String() == "false" {
+				continue
+			}
+			na++
+			c.check(len(acc.Preds) == 1 && acc.Dominates(rb), "M6", "accept-behind-fit-test:"+itoa(na), rr.Pos(), "this non-refusing return of AdjustOffs is dominated by the accept edge of the span-length test")
+		}
+		c.check(na >= 1, "M6", "accepts", fn.Pos(), fmt.Sprintf("%d accepting return(s)", na))
 		c.check(okf, "M6", key, iff.Cond.Pos(), "the refusal is taken exactly when the URI extent exceeds the length of the target span (refusal edge: "+why+"; expected span.Len - (end - start) + 1 <= 0, the extent a difference of positions): a span at least as long as the URI is never refused")
 	}
 	c.check(n == 1, "M6", "refusals", fn.Pos(), fmt.Sprintf("%d refusal return(s) in AdjustOffs; exactly one reason (span too short) is allowed", n))
@@ -457,7 +473,7 @@ func init() {
 	register(&PropDef{
 		ID: "C18",
 		Rules: []Rule{
-			{"M6", "relocation is refused for one reason only: AdjustOffs has exactly one refusal return and it is selected by a comparison whose refusal edge is exactly extent >= span.Len + 1, span.Len being the Len of the position argument — a span at least as long as the URI is never refused", ruleM6},
+			{"M6", "relocation is refused for one reason only: AdjustOffs has exactly one refusal return and it is selected by a comparison whose refusal edge is exactly extent >= span.Len + 1, span.Len being the Len of the position argument — a span at least as long as the URI is never refused; every accepting return lies behind the accept edge of that test", ruleM6},
 			{"M1", "AdjustOffs rebases every PField component of PsipURI (all but Scheme) with the same expression Offs - oldStart + newStart under its presence test, and Scheme.Offs = newStart; the old start is read before it is overwritten", ruleM1},
 			{"M2", "refusal does not mutate: no store through the receiver on any path to `return false`", ruleM2},
 			{"M3", "relocation cannot reach an explicit panic", ruleM3},
